@@ -29,6 +29,8 @@ from fractions import Fraction as F
 sys.path.insert(0, os.path.dirname(os.path.abspath(__file__)))
 from lib import Check, REPO, guarded, reslit, zlit, blit, listlit   # noqa: E402
 import gen_pair   # noqa: E402  (tools/: translator tie for is_sub_list / do_bounds_overlap)
+import gen_geom   # noqa: E402  (tools/: find_line_intersection, regenerated here too: the sweep tie is instantiated with it)
+import gen_sweep  # noqa: E402  (tools/: translator tie for do_edges_intersect)
 
 logging.disable(logging.CRITICAL)
 import warnings                                                      # noqa: E402
@@ -582,6 +584,10 @@ def main():
     ck.build_theories(['theories/Props/C02.vo', 'theories/Corr/PairK.vo'])
     rep = gen_pair.main(REPO, os.path.join(ck.rundir, 'PairGen.v'))   # is_sub_list / do_bounds_overlap regenerated from the source ...
     ck.gen('PairGen.v', rep, 'PairGenEq.v')                           # ... proved equal to PairM.is_sub_list / GeomM.bounds_overlap for all arguments
+    rep = gen_geom.main(REPO, os.path.join(ck.rundir, 'GeomGen.v'))   # find_line_intersection (C01's tie, needed by the sweep's instantiation)
+    ck.gen('GeomGen.v', rep, 'GeomGenEq.v')
+    rep = gen_sweep.main(REPO, os.path.join(ck.rundir, 'SweepGen.v'))  # do_edges_intersect: events, __lt__, sort, the active-set loop ...
+    ck.gen('SweepGen.v', rep, 'SweepGenEq.v')                          # ... proved equal to SweepM.sweep for all edge lists
     ck.props('Props/C02.v')
     rng = ck.rng
     quick = ck.tier == 'quick'
